@@ -11,3 +11,6 @@ open PhQVerif Generated
 #eval s!"COUNT C10.direction_producing_entries {(quantityEntries.filter (fun e => e.producesDirection classes)).length}"
 #eval s!"COUNT C10.magnitude_entries {(quantityEntries.filter (fun e => e.mem == .magnitude)).length}"
 #eval s!"COUNT C10.scalar_direction_constructors {(quantityEntries.filter (fun e => e.isScaleDirCtor classes)).length}"
+#print axioms PhQVerif.Props.C10.unit_length_four_ulps
+#eval s!"COUNT C10.direction_entries_normalising {(quantityEntries.filter (fun e => e.producesDirection classes && dirTreeOk e.fm e.tree)).length}"
+#eval s!"COUNT C10.of_which_four_ulps_theorem_applies {((quantityEntries.filter (fun e => e.producesDirection classes && dirTreeOk e.fm e.tree)).filter PhQVerif.Props.C10.fiveRoundings).length}"
